@@ -26,7 +26,7 @@ pub fn get() -> FunctionDefinitions {
                                 }
                             }
                         }
-                        Some(sum.into())
+                        Some(sum).filter(|n| n.is_finite()).map(Into::into)
                     }
                     _ => None,
                 }
